@@ -42,3 +42,8 @@ claim("C09", "PBT (rapid): shape-directed selector generator vs. independent ref
       "Generated-input search: selectors derived from the document's shape (with ~15% deliberately invalid steps) judged by a reference evaluator of the documented grammar, arbitrary/mutated selector strings judged for totality and read-only-ness; held on everything explored.",
       "Meaning asserted only for the documented grammar (assumptions in the evidence file); arbitrary strings are only required to return without panic and without modifying the document.",
       "DESIGN.md 4/C09")
+
+claim("C15", "PBT: exhaustive enumeration of a finite representative domain (all ordered pairs, all same-kind triples) + rapid random typed values vs. exact math/big rational oracle and algebraic laws",
+      "Every run enumerates all ordered pairs and same-kind triples of a boundary-value domain over the 12 Go numeric types and strings, then searches random typed pairs/triples; oracle is exact rational comparison; exhaustive only over that finite domain.",
+      "Float-vs-string pairs with |float| >= 10^6 are judged by the laws only (decimal text ambiguous); |v| <= 2^53.",
+      "DESIGN.md 4/C15")
